@@ -87,8 +87,9 @@ def main():
         def reset():
             subprocess.run(["git", "-C", WT, "checkout", "--", "."], check=True)
             subprocess.run(["git", "-C", WT, "clean", "-fdq"], check=True)
-            for f in fixes:
-                subprocess.run(["git", "-C", WT, "apply", f], check=True)
+            for f in fixes:  # a fix that is already committed (no longer applies) is skipped
+                if subprocess.run(["git", "-C", WT, "apply", "--check", f], capture_output=True).returncode == 0:
+                    subprocess.run(["git", "-C", WT, "apply", f], check=True)
 
         reset()
         base = breaches(scan(WT), g)
